@@ -1577,6 +1577,8 @@ class Interp(ExprMixin):
             hs.events = list(cont[0].events) if cont else list(pre.events)
             exc = dotted(h.type) if h.type is not None else 'BaseException'
             hs.conds.append((app('except', Const(exc)), True, h))
+            # the step that raised did not complete: rules that rely on an effect of the try body consult this mark
+            self.log(hs, 'note', h, rule='except', start=len(pre.events))
             if h.name:
                 hs.env[h.name] = Poly.atom(('fresh', fresh_id(), 'exc'))
             c, d = self.exec_block(h.body, [hs])
